@@ -160,3 +160,77 @@ func verifSweepSnapshot(c *clipperBase, y int64) {
 	}
 	VerifSweepHook(c, y, ael)
 }
+
+// VerifIntersectHook, when set, is called for every intersection node of a scan-beam at the moment
+// it is processed, before the two edges are intersected and swapped: pos is the 0-based position of
+// edge1 in the active edge list, left reports that edge2 is its right-hand neighbour (the
+// precondition of the swap), pt is the (rounded) intersection point.
+var VerifIntersectHook func(obj any, pos int, left bool, pt Point64)
+
+func verifIntersect(c *clipperBase, node *IntersectNode) {
+	if VerifIntersectHook == nil {
+		return
+	}
+	pos := 0
+	for e := c.actives; e != nil && e != node.edge1; e = e.nextInAEL {
+		pos++
+	}
+	VerifIntersectHook(c, pos, node.edge1.nextInAEL == node.edge2, node.pt)
+}
+
+// VerifOutRec is one output record as the sweep leaves it (before collinear cleaning, self-intersection
+// repair and path building).
+type VerifOutRec struct {
+	Idx, OwnerIdx     int // OwnerIdx -1: no owner
+	HasPts, IsOpen    bool
+	FrontNil, BackNil bool
+	NFwd, NBack       int  // ring length following next / prev (capped)
+	LinksOK           bool // op.next.prev == op and op.prev.next == op all around
+	OpsOwned          bool // getRealOutRec(op.outrec) is this record for every op of the ring
+	Pts               Path64
+}
+
+// VerifOutRecHook, when set, receives the output records at the end of the sweep.
+var VerifOutRecHook func(obj any, recs []VerifOutRec)
+
+func verifOutRecSnapshot(c *clipperBase) {
+	if VerifOutRecHook == nil {
+		return
+	}
+	const limit = 1 << 16
+	recs := make([]VerifOutRec, 0, len(c.outrecList))
+	for _, or := range c.outrecList {
+		r := VerifOutRec{Idx: or.idx, OwnerIdx: -1, HasPts: or.pts != nil, IsOpen: or.isOpen,
+			FrontNil: or.frontEdge == nil, BackNil: or.backEdge == nil, LinksOK: true, OpsOwned: true}
+		if or.owner != nil {
+			r.OwnerIdx = or.owner.idx
+		}
+		if or.pts != nil {
+			op := or.pts
+			for {
+				r.NFwd++
+				r.Pts = append(r.Pts, op.pt)
+				if op.next == nil || op.prev == nil || op.next.prev != op || op.prev.next != op {
+					r.LinksOK = false
+					break
+				}
+				if getRealOutRec(op.outrec) != or {
+					r.OpsOwned = false
+				}
+				op = op.next
+				if op == or.pts || r.NFwd >= limit {
+					break
+				}
+			}
+			for op = or.pts; op != nil; {
+				r.NBack++
+				op = op.prev
+				if op == or.pts || r.NBack >= limit {
+					break
+				}
+			}
+		}
+		recs = append(recs, r)
+	}
+	VerifOutRecHook(c, recs)
+}
